@@ -258,6 +258,24 @@ func buildIntrinsics() map[string]intrinsic {
 		if b.C != nil && *b.C == "" {
 			e.unsupported("ReplaceAll with empty pattern")
 		}
+		if b.C != nil && c.C != nil && len(*b.C) == 1 {
+			// a single-byte pattern distributes over concatenation
+			parts := a.Parts
+			if len(parts) == 0 {
+				parts = []*StrV{a}
+			}
+			var acc Value = cstr("")
+			for _, p := range parts {
+				var r *StrV
+				if p.C != nil {
+					r = cstr(strings.ReplaceAll(*p.C, *b.C, *c.C))
+				} else {
+					r = e.replaceAllAtom(p, *b.C, *c.C)
+				}
+				acc = e.strBinop(token.ADD, acc.(*StrV), r)
+			}
+			return acc
+		}
 		return &StrV{T: "(str.replace_all " + a.T + " " + b.T + " " + c.T + ")"}
 	}
 	m["strings.LastIndex"] = str2(func(e *Exec, a, b *StrV) Value {
@@ -633,6 +651,24 @@ func (e *Exec) bytesEqual(a, b *SliceV) Value {
 	return acc
 }
 
+// replaceAllAtom: ReplaceAll of a one-byte pattern in a symbolic string,
+// defined exactly by str.replace_all plus the two facts solvers need most.
+func (e *Exec) replaceAllAtom(p *StrV, old, nw string) *StrV {
+	key := "repl#" + p.T + "#" + old + "#" + nw
+	if v, ok := e.lazyMemo[key]; ok {
+		return v.(*StrV)
+	}
+	r := e.fresh("repl", "String")
+	e.assume("(= " + r + " (str.replace_all " + p.T + " " + smtStr(old) + " " + smtStr(nw) + "))")
+	e.assume("(=> (not (str.contains " + p.T + " " + smtStr(old) + ")) (= " + r + " " + p.T + "))")
+	if !strings.Contains(nw, old) {
+		e.assume("(not (str.contains " + r + " " + smtStr(old) + "))")
+	}
+	v := &StrV{T: r}
+	e.lazyMemo[key] = v
+	return v
+}
+
 func (e *Exec) lowerTerm(a *StrV) string {
 	if a.C != nil {
 		return smtStr(strings.ToLower(*a.C))
@@ -655,11 +691,18 @@ func (e *Exec) lowerTerm(a *StrV) string {
 // the result r satisfies s = pre ++ r ++ post with pre, post blank strings and
 // r neither starting nor ending with a blank.
 func (e *Exec) trimSpace(a *StrV) Value {
-	e.stub("model:strings.TrimSpace(ASCII blanks)")
 	key := "trim#" + a.T
 	if v, ok := e.lazyMemo[key]; ok {
 		return v
 	}
+	blank0 := `(re.union (str.to_re " ") (str.to_re "\u{9}") (str.to_re "\u{a}") (str.to_re "\u{b}") (str.to_re "\u{c}") (str.to_re "\u{d}") (str.to_re "\u{85}") (str.to_re "\u{a0}"))`
+	edge := &BoolV{T: "(str.in_re " + a.T + " (re.union (re.++ " + blank0 + " re.all) (re.++ re.all " + blank0 + ")))"}
+	if !e.branch(edge) {
+		// no blank at either end: TrimSpace is the identity
+		e.lazyMemo[key] = a
+		return a
+	}
+	e.stub("model:strings.TrimSpace(ASCII blanks)")
 	e.nfresh++
 	id := e.nfresh
 	pre := fmt.Sprintf("trimpre!%d", id)
@@ -694,6 +737,37 @@ func (e *Exec) strSplit(s, sep *StrV, n int) Value {
 	}
 	if n > 0 && n < maxParts {
 		maxParts = n
+	}
+	if len(s.Parts) > 0 && len(*sep.C) == 1 && n < 0 {
+		// structural split: when no symbolic operand of the concatenation can contain the
+		// separator, the split points are those of the concrete operands
+		structural := true
+		for _, p := range s.Parts {
+			if p.C == nil && e.branch(&BoolV{T: "(str.contains " + p.T + " " + sep.T + ")"}) {
+				structural = false
+				break
+			}
+		}
+		if structural {
+			var pieces []Value
+			var cur Value = cstr("")
+			for _, p := range s.Parts {
+				if p.C == nil {
+					cur = e.strBinop(token.ADD, cur.(*StrV), p)
+					continue
+				}
+				segs := strings.Split(*p.C, *sep.C)
+				for i, sg := range segs {
+					if i > 0 {
+						pieces = append(pieces, cur)
+						cur = cstr("")
+					}
+					cur = e.strBinop(token.ADD, cur.(*StrV), cstr(sg))
+				}
+			}
+			pieces = append(pieces, cur)
+			return &SliceV{O: e.newObj(&ArrayV{E: pieces}, "split"), Len: cbv(uint64(len(pieces)), 64), Cap: len(pieces)}
+		}
 	}
 	e.stub("model:strings.Split(<=" + fmt.Sprint(maxParts) + " parts)")
 	var parts []Value
